@@ -331,17 +331,25 @@ def _container_history(spec, ctx, R):
     T = R.sparse_from_dense(gen.entries(rng, "int", n, kk) * (rng.random((n, kk)) < 0.7))
     ctx.distinct("container_history", X, Sd)
 
+    kept = []      # (label, result object, copy of its value when it was returned): a returned product stays what it was
+
     def step(label):
         Sn, Tn = densify(S), densify(T)
+        for lab0, obj0, val0 in kept:
+            cur = densify(obj0) if isinstance(obj0, U.SparseQuaternionMatrix) else obj0
+            ctx.check("product_T2", bool(np.array_equal(refq.fa(cur), val0)), site="result_retained_from:" + lab0 + ":checked_at:" + label,
+                      detail={"note": "a product returned earlier changed after later library calls"})
         for site, got, ref_a, ref_b in (("ds", lambda: U.quat_matmat(X, S), X, Sn), ("sd", lambda: U.quat_matmat(S, Y), Sn, Y),
                                          ("ss", lambda: U.quat_matmat(S, T), Sn, Tn), ("op_sd", lambda: S @ Y, Sn, Y), ("dd", lambda: U.quat_matmat(X, Sn), X, Sn)):
             try:
-                C = got()
-                C = densify(C) if isinstance(C, U.SparseQuaternionMatrix) else C
+                C_raw = got()
+                C = densify(C_raw) if isinstance(C_raw, U.SparseQuaternionMatrix) else C_raw
             except Exception as e:
                 ctx.check("product_T2", False, site=site + ":history:" + label, detail={"exception": repr(e)[:200]})
                 continue
             _t2_check(ctx, "product_T2", site + ":history:" + label, C, np.array(ref_a, copy=True), np.array(ref_b, copy=True), extra={"step": label})
+            if len(kept) < 40:
+                kept.append((site + ":" + label, C_raw, refq.fa(C).copy()))
         for Z, Zn, nm in ((S, Sn, "S"), (T, Tn, "T")):
             try:
                 v = float(U.quat_frobenius_norm(Z))
